@@ -253,6 +253,11 @@ pub fn run(ctx: &Ctx) -> i32 {
     let nsh = ["a", "a~", "$x", "~"];
     let t = sweep(ctx, &nsh, 3, &c);
     bounds.push(format!("<=3 components over {{a,a~,$x,~}} (names containing '~' and '$'): {} ordered pairs", t));
+    // names with dots (extensions, dot-files, '...', a trailing dot): relative() works on whole components,
+    // a stem/extension helper applied to one of them shows up only on such names
+    let ndot = ["a", "a.b", ".a", "a.", "...", "a.b.c"];
+    let t = sweep(ctx, &ndot, 3, &c);
+    bounds.push(format!("<=3 components over {{a,a.b,.a,a.,...,a.b.c}} (names containing dots): {} ordered pairs", t));
     // long paths: the number of '..' and of kept components grows with the depth; every depth up to 64 on
     // either side, against the root, a sibling chain and a chain sharing a prefix of every length
     {
